@@ -217,6 +217,10 @@ class ServerWorld:
             world.serial += 1
             b._sim_serial = world.serial
             world.bptks[b._sim_serial] = b
+            if world.cfg.get("factory_cost_us") and world.app is not None:
+                # building a bptk (loading and registering a large model) takes (virtual) time: the instance exists when that is done
+                world.clock.advance(world.cfg["factory_cost_us"])
+                world.result.probe("slow_bptk_factory")
             for mgr, scenarios in mc["managers"].items():
                 b.register_scenario_manager({mgr: {"model": model}})
                 b.register_scenarios(scenario_manager=mgr, scenarios=copy.deepcopy(scenarios))
